@@ -245,3 +245,7 @@ _patch('C05', 'level_text', 'Unbounded proof (Verus) on the extracted real funct
        'Unbounded proof (Verus) on the extracted real functions: the interpreter ROOT SET (impl TraceRoot for Vm) reaches every GC-typed field of the Vm struct — contract generated from the struct; this obligation failed on the pinned tree for `inline_cache` (D21: stale inline-cache hit after a collection, found and fixed) —;')
 _patch('C05', 'level_note', 'NOT decided: root sets of Vm/Compiler/Fiber stack slices,', 'NOT decided: the root set of a running compilation (Compiler), Fiber stack slices beyond Fiber::trace,')
 _patch('C13', 'level_note', 'and A-classid (no class address reuse while cached: the GC part of the property is NOT decided).', 'and A-classid (no class address reuse while cached): true since the caches are GC roots (fix ae3a806, D21; the obligation that the root set reaches the caches is checked under C05).')
+
+_patch('C05', 'level_text', 'the interpreter ROOT SET (impl TraceRoot for Vm) reaches every GC-typed field of the Vm struct',
+       'the interpreter ROOT SET (impl TraceRoot for Vm) and the root set of a running compilation (impl TraceRoot for Compiler, ClassAttributes) reach every GC-typed field of their structs')
+_patch('C05', 'level_note', 'NOT decided: the root set of a running compilation (Compiler), Fiber stack slices beyond Fiber::trace,', 'Exempted fields, each with its alias reason listed as an assumption: Vm.builtin / global_module / current_fun, Compiler.chunk / root_trace (outermost compiler only: stated as an extra clause), ClassAttributes.name, Class.init. NOT decided:')
